@@ -250,6 +250,23 @@ func (d *Desc) sort() {
 	sort.Strings(d.File.Deps)
 }
 
+// normalise maps spellings that protobuf defines to mean the same onto one
+// representative, for every source alike: in proto3 a repeated field of a
+// packable type is packed unless the option says false, so an explicit
+// `[packed = true]` is the same fact as no option at all.
+func (d *Desc) normalise() {
+	if d.File.Syntax != 3 {
+		return
+	}
+	for i := range d.Fields {
+		f := &d.Fields[i]
+		packable := !(f.Type == 9 || f.Type == 10 || f.Type == 11 || f.Type == 12)
+		if f.Label == 3 && packable && f.Packed == 2 {
+			f.Packed = 0
+		}
+	}
+}
+
 func (g *GoBind) sort() {
 	sortBy(g.Structs, func(x StructF) []any { return []any{x.Ident} })
 	sortBy(g.Tags, func(x TagF) []any { return []any{x.Struct, x.Name, x.Number} })
